@@ -30,6 +30,10 @@ def flagAssist : Nat := 0
 def flagTxParent : Nat := 1
 def flagTxLeaf : Nat := 2
 
+/-- `leafPrefix = []byte{0x00}`, `interiorPrefix = []byte{0x01}` (used by the driver's hash instance) -/
+def leafPrefix : List Nat := [0x00]
+def interiorPrefix : List Nat := [0x01]
+
 /-- `prevPowerOfTwo`: `n&(n-1)==0` (zero or a power of two) → `n/2`; otherwise
     `1 << uint(math.Log2(float64(n)))`. -/
 def prevPowerOfTwo (n : Nat) : Nat :=
